@@ -92,6 +92,14 @@ def main():
         else:
             violations.append((rej.get('what', 'oracle rejection'), rej.get('replay', rej.get('what', ''))))
     broken = list(proof['broken']) + list(res.get('broken', []))
+    if broken and not violations and cfg['engine'] == 'mach' and 'full' in res:
+        # look harder for a concrete failing history before giving up
+        found, note = ME.search(pid, res['full'], a.seed)
+        res['search_note'] = res.get('search_note', '') + '; ' + note
+        for rej in found:
+            if not any(ME.finding_matches(k, rej) for k in known):
+                violations.append((rej.get('what', 'oracle rejection'), rej.get('replay', '')))
+                break
     if broken and not violations:
         # a proof obligation or the correspondence broke and no concrete failing input was found
         body = 'property %s: no longer shown to hold\n\n' % pid
